@@ -11,7 +11,7 @@ use crate::common::*;
 use crate::engine::*;
 use serde::Deserialize;
 use serde_json::{json, Value};
-use std::collections::{HashSet, VecDeque};
+use std::collections::{HashMap, HashSet, VecDeque};
 
 #[derive(Clone, Debug, Deserialize)]
 pub struct Bounds {
@@ -29,9 +29,14 @@ fn one() -> u64 {
 }
 
 #[derive(Clone, Debug, Deserialize)]
-pub struct ExploreJob {
+pub struct Group {
     pub cfgs: Vec<Cfg>,
     pub bounds: Bounds,
+}
+
+#[derive(Clone, Debug, Deserialize)]
+pub struct ExploreJob {
+    pub groups: Vec<Group>,
 }
 
 #[derive(Clone, Debug)]
@@ -56,10 +61,11 @@ fn explore_cfg(cfg: &Cfg, b: &Bounds, w: &mut TraceWriter, cfg_id: usize) -> Sta
     let parts = AsyncParts::new();
     let eng = Eng::new(cfg, &parts);
     let init = St::default();
-    let mut seen: HashSet<String> = HashSet::new();
-    let mut queue: VecDeque<(St, i64)> = VecDeque::new();
-    seen.insert(key_of(&init, 0));
-    queue.push_back((init, 0));
+    // state key -> state id (0 = the empty cache); ids are the parent pointers of the log
+    let mut seen: HashMap<String, i64> = HashMap::new();
+    let mut queue: VecDeque<(St, i64, i64)> = VecDeque::new();
+    seen.insert(key_of(&init, 0), 0);
+    queue.push_back((init, 0, 0));
     let mut edges = 0usize;
     let mut states = 1usize;
     let mut truncated = false;
@@ -69,7 +75,7 @@ fn explore_cfg(cfg: &Cfg, b: &Bounds, w: &mut TraceWriter, cfg_id: usize) -> Sta
         b.sizes.clone()
     };
     let nseeds = if cfg.policy == "random" { b.seeds.max(1) } else { 1 };
-    while let Some((st, ver)) = queue.pop_front() {
+    while let Some((st, ver, uid)) = queue.pop_front() {
         // state constraint (same as the model's): hit counters bounded
         if st.store.values().any(|e| e.hits > b.max_hits) {
             continue;
@@ -160,20 +166,24 @@ fn explore_cfg(cfg: &Cfg, b: &Bounds, w: &mut TraceWriter, cfg_id: usize) -> Sta
                 line.insert("pre".into(), json!(pre0));
                 line.insert("e".into(), Value::Object(ev));
                 line.insert("post".into(), json!(post));
-                w.emit(&Value::Object(line));
-                edges += 1;
+                let mut wid: i64 = -1;
                 if !panicked {
                     let k = key_of(&post, nver);
-                    if !seen.contains(&k) {
-                        if b.max_states != 0 && states >= b.max_states {
-                            truncated = true;
-                        } else {
-                            seen.insert(k);
-                            states += 1;
-                            queue.push_back((post, nver));
-                        }
+                    if let Some(id) = seen.get(&k) {
+                        wid = *id;
+                    } else if b.max_states != 0 && states >= b.max_states {
+                        truncated = true;
+                    } else {
+                        wid = states as i64;
+                        seen.insert(k, wid);
+                        states += 1;
+                        queue.push_back((post, nver, wid));
                     }
                 }
+                line.insert("u".into(), json!(uid));
+                line.insert("w".into(), json!(wid));
+                w.emit(&Value::Object(line));
+                edges += 1;
             }
         }
     }
@@ -190,24 +200,29 @@ pub fn cmd_explore(args: &[String]) -> i32 {
         serde_json::from_str(&std::fs::read_to_string(arg(args, "--job").expect("--job")).unwrap())
             .expect("job json");
     let mut w = TraceWriter::create(arg(args, "--out").expect("--out"));
-    w.emit(&json!({"cfgs": job.cfgs}));
+    let all_cfgs: Vec<Cfg> = job.groups.iter().flat_map(|g| g.cfgs.iter().cloned()).collect();
+    w.emit(&json!({"cfgs": all_cfgs}));
     let mut tot_states = 0;
     let mut tot_edges = 0;
     let mut trunc = 0;
     let mut per_cfg = Vec::new();
-    for (i, cfg) in job.cfgs.iter().enumerate() {
-        let s = explore_cfg(cfg, &job.bounds, &mut w, i);
-        tot_states += s.states;
-        tot_edges += s.edges;
-        if s.truncated {
-            trunc += 1;
+    let mut i = 0usize;
+    for g in &job.groups {
+        for cfg in &g.cfgs {
+            let s = explore_cfg(cfg, &g.bounds, &mut w, i);
+            i += 1;
+            tot_states += s.states;
+            tot_edges += s.edges;
+            if s.truncated {
+                trunc += 1;
+            }
+            per_cfg.push(json!({"cfg": cfg, "states": s.states, "edges": s.edges, "truncated": s.truncated}));
         }
-        per_cfg.push(json!({"cfg": cfg, "states": s.states, "edges": s.edges, "truncated": s.truncated}));
     }
     w.finish();
     println!(
         "{}",
-        json!({"cfgs": job.cfgs.len(), "states": tot_states, "edges": tot_edges, "truncated_cfgs": trunc, "per_cfg": per_cfg})
+        json!({"cfgs": all_cfgs.len(), "states": tot_states, "edges": tot_edges, "truncated_cfgs": trunc, "per_cfg": per_cfg})
     );
     0
 }
